@@ -15,7 +15,8 @@ VERIF = os.path.dirname(os.path.dirname(os.path.abspath(__file__)))
 REPO = os.environ.get("VERIF_REPO", "/repo")
 SPEC = os.path.join(VERIF, "spec")
 OUT = os.path.join(VERIF, "out")
-EVID = os.path.join(VERIF, "evidence")
+# evidence describes /repo itself: development runs against another tree or a single family write elsewhere
+EVID = os.path.join(VERIF, "evidence") if (REPO == "/repo" and not os.environ.get("VERIF_ONLY_ORIGIN")) else os.path.join(OUT, "evidence-dev")
 REPLAY = os.path.join(OUT, "replay")
 
 GUARD = "QLASSKIT_VERIF"
